@@ -41,8 +41,9 @@ def make_cemi(i: int) -> CEMIFrame:
     return CEMIFrame(code=CEMIMessageCode.L_DATA_REQ, data=CEMILData.init_from_telegram(tg))
 
 
-def make(n_sends: int, concurrent: int, auto_reconnect: bool):
-    """n_sends send_cemi calls, `concurrent` of them started together, the rest one after the other."""
+def make(n_sends: int, concurrent: int, auto_reconnect: bool, manual: bool = False, route_back: bool = False):
+    """n_sends send_cemi calls, `concurrent` of them started together, the rest one after the other.
+    manual: without auto-reconnect the user calls connect() again on the same object when the tunnel is gone, then goes on sending."""
 
     def scenario(ch: Chooser) -> list[tuple[str, str]]:
         viols: list[tuple[str, str]] = []
@@ -115,7 +116,7 @@ def make(n_sends: int, concurrent: int, auto_reconnect: bool):
             gw.handler = handler
             xknx = XKNX()
             tunnel = UDPTunnel(xknx, lambda raw: None, gateway_ip=GW_ADDR[0], gateway_port=GW_ADDR[1], local_ip="192.168.1.2",
-                               auto_reconnect=auto_reconnect, auto_reconnect_wait=3)
+                               auto_reconnect=auto_reconnect, auto_reconnect_wait=3, route_back=route_back)
             t = w.spawn(tunnel.connect())
             loop.settle()
             if not (t.done() and texc(t) is None):
@@ -136,6 +137,12 @@ def make(n_sends: int, concurrent: int, auto_reconnect: bool):
                 if first:
                     await asyncio.wait(first)
                 for i in range(concurrent, n_sends):
+                    if manual and tunnel.communication_channel is None:
+                        st["events"].append((loop.time(), "UserConnect"))
+                        try:
+                            await tunnel.connect()
+                        except Exception as exc:  # noqa: BLE001
+                            st["events"].append((loop.time(), "UserConnectFailed", type(exc).__name__))
                     await user(i)
 
             d = w.spawn(driver())
@@ -240,12 +247,13 @@ def run(ctx: Ctx) -> None:
     bound = 5 if ctx.thorough else 3
     ctx.rule = (
         f"real UDPTunnel (connected through the real connect()) against a simulated gateway on the virtual loop; user: 1-3 send_cemi calls (0 or 2 concurrent), "
-        f"auto-reconnect on/off; per TunnellingRequest the gateway answers one of {ACK_OPTS}, per re-ConnectRequest one of {CONN_OPTS}; EVERY schedule with <= {bound} "
+        f"auto-reconnect on/off, without it also a user who calls connect() again on the same object when the tunnel is gone, route_back off/on; per TunnellingRequest the gateway answers one of {ACK_OPTS}, per re-ConnectRequest one of {CONN_OPTS}; EVERY schedule with <= {bound} "
         "non-default answers is executed to a 60 s horizon; oracle over the gateway's log (counter = next mod 256, 0 after each ConnectResponse, <=1 repetition, one outstanding, "
         "success only with an error-free ack of the same channel and counter); plus a 300-send default run for the wrap-around. non-trivial = schedule with >=1 deviation"
     )
     ctx.bounds = {"deviation_bound": bound, "horizon_s": 60, "sends": [1, 2, 3], "ack_options": len(ACK_OPTS), "connect_options": len(CONN_OPTS)}
-    for args in [(1, 0, True), (2, 0, True), (3, 0, True), (2, 2, True), (3, 2, True), (2, 0, False), (2, 2, False)]:
+    for args in [(1, 0, True), (2, 0, True), (3, 0, True), (2, 2, True), (3, 2, True), (2, 0, False), (2, 2, False), (3, 0, False, True), (3, 2, False, True),
+                 (3, 0, True, False, True), (3, 0, False, True, True)]:   # ... manual reconnect; route_back=True
         explore(ctx, __name__, "sends", args, bound=bound)
     explore(ctx, __name__, "wrap", (300,), bound=0)
     finalize_states(ctx)
